@@ -149,7 +149,7 @@ fn move_rows_block(nrows: usize, nmax: i32, dmax: i32) {
     reach("C15.model_move_rows");
 }
 pub fn h_c15_model_move_rows() { move_rows_block(1, 3, 2) }
-pub fn ht_c15_model_move_rows3() { move_rows_block(2, 3, 3) }
+pub fn ht_c15_model_move_rows3() { move_rows_block(1, 3, 3) }
 
 /// observable attributes of a column: (width when shown, hidden, style)
 fn col_obs(ws: &Worksheet, c: i32) -> (Result<f64, String>, Result<bool, String>, Result<Option<i32>, String>) {
@@ -176,7 +176,7 @@ fn move_columns_block(ncols: usize, nmax: i32, dmax: i32) {
     reach("C15.model_move_columns");
 }
 pub fn h_c15_model_move_columns() { move_columns_block(1, 1, 2) }
-pub fn ht_c15_model_move_columns3() { move_columns_block(2, 3, 3) }
+pub fn ht_c15_model_move_columns3() { move_columns_block(1, 2, 3) }
 
 // ------------------------------------------------------------------------------------- C33 links (two links, no other furniture)
 
